@@ -436,6 +436,12 @@ impl OutputFormat for IcyDraw {
                                         };
                                         match layer.role {
                                             crate::Role::Normal => {
+                                                // the flags of the layer are set by now: lift the ones that make
+                                                // set_char a no-op while the rest of its cells is read
+                                                let properties = layer.properties.clone();
+                                                layer.properties.is_visible = true;
+                                                layer.properties.is_locked = false;
+                                                layer.properties.is_alpha_channel_locked = false;
                                                 let mut o = 0;
                                                 for y in layer.get_line_count()..layer.get_height() {
                                                     if o >= bytes.len() {
@@ -502,6 +508,7 @@ impl OutputFormat for IcyDraw {
                                                         );
                                                     }
                                                 }
+                                                layer.properties = properties;
                                                 continue;
                                             }
                                             crate::Role::PastePreview => todo!(),
